@@ -123,6 +123,28 @@ fn main() {
         println!("=> {c} jobs_ok={} {:?}", j.is_ok(), boa_engine::verif::vm_depths(&ctx));
         return;
     }
+    if args[1] == "c16-compare" {
+        // authoring aid: run every program of a {programs:[{name,src,expected}]} file synchronously and
+        // list the ones whose trace differs from the expectation
+        let v: serde_json::Value = serde_json::from_str(&std::fs::read_to_string(&args[2]).expect("read")).expect("json");
+        let mut bad = 0;
+        for p in v["programs"].as_array().expect("programs") {
+            let src = p["src"].as_str().unwrap_or("");
+            let exp: Vec<String> = p["expected"].as_array().expect("expected").iter().map(|s| s.as_str().unwrap_or("").to_string()).collect();
+            let (mut ctx, host) = boa_sim::js::new_default_context();
+            let r = ctx.eval(boa_engine::Source::from_bytes(src));
+            let c = boa_sim::js::completion(&r, &mut ctx);
+            let j = ctx.run_jobs();
+            let got = host.trace.take();
+            if got != exp || !c.starts_with("ok:") || j.is_err() {
+                bad += 1;
+                let at = got.iter().zip(exp.iter()).position(|(a, b)| a != b).unwrap_or(got.len().min(exp.len()));
+                println!("MISMATCH {} completion={c} jobs_ok={} at {at}: got {:?} expected {:?}", p["name"], j.is_ok(), got.get(at), exp.get(at));
+            }
+        }
+        println!("{bad} mismatches");
+        return;
+    }
     if args[1] == "mod" {
         let src = std::fs::read_to_string(&args[2]).expect("read");
         let upto: u32 = std::env::var("UPTO").ok().and_then(|s| s.parse().ok()).unwrap_or(9);
